@@ -8,7 +8,7 @@ import os, re
 from vlib.engine import Prop, Failure
 from props import msagen as G
 
-MODELLED = ["afa", "a2m", "clustal", "clustallike", "psiblast"]                         # formats whose reader exists in the Lean model (text + digital, declared format)
+MODELLED = ["afa", "a2m", "clustal", "clustallike", "psiblast", "phylip", "phylips"]                         # formats whose reader exists in the Lean model (text + digital, declared format)
 MODELLED_ABC = ["text", "amino", "dna", "rna"]
 ALL_FORMATS = G.FORMATS
 UNMODELLED = [f for f in ALL_FORMATS if f not in MODELLED] + ["auto(format autodetection)", "guess(alphabet autodetection)"]
@@ -39,7 +39,9 @@ class C01(Prop):
         "lines_partition", "strmapcat_length", "dsqcat_codes_valid",
         "a2mConfigs_valid", "a2m_total", "a2m_no_fault", "a2m_eformat_has_message", "a2m_ok_wellformed", "a2m_read_all_total",
         "clustalConfigs_valid", "clustal_total", "clustal_no_fault", "clustal_ok_wellformed",
-        "psiblastConfigs_valid", "psiblast_total", "psiblast_no_fault", "psiblast_ok_wellformed")] + [
+        "psiblastConfigs_valid", "psiblast_total", "psiblast_no_fault", "psiblast_ok_wellformed",
+        "phylipConfigs_valid", "phylip_total", "phylip_total_bytes", "phylip_no_fault", "phylip_eformat_has_message", "phylip_ok_wellformed",
+        "phylip_read_all_total")] + ["EaselModel.Msafile.phylipRead_good",
         "EaselModel.Msafile.afaRead_good", "EaselModel.Msafile.a2mRead_good", "EaselModel.Msafile.clustalRead_good",
         "EaselModel.Msafile.psiblastRead_good", "EaselModel.Msafile.runLines_inv"]
     claimed = True
@@ -60,7 +62,7 @@ class C01(Prop):
     diverge_is_violation = False
     quick_budget_s = 75
     thorough_budget_s = 900
-    trusted_base = ["hand model of esl_msafile_afa.c, esl_msafile_a2m.c (incl. a2m_padding_*), esl_msafile_clustal.c, esl_msafile_psiblast.c readers (+ easel.c esl_strmapcat, esl_alphabet.c esl_abc_dsqcat, esl_mem.c esl_memtok/esl_memspn, esl_msa.c setters) "
+    trusted_base = ["hand model of esl_msafile_afa.c, esl_msafile_a2m.c (incl. a2m_padding_*), esl_msafile_clustal.c, esl_msafile_psiblast.c, esl_msafile_phylip.c (interleaved + sequential, esl_mem_strtoi32 header) readers (+ easel.c esl_strmapcat, esl_alphabet.c esl_abc_dsqcat, esl_mem.c esl_memtok/esl_memspn, esl_msa.c setters) "
                     "tied by exact differential run (h_msafile.c, ASan+UBSan+LSan build of the working tree)",
                     "abstract line reader (split at LF, one CR stripped before LF): ESL_BUFFER's refinement to it is property C05, assumed here and re-checked "
                     "by running every input through memory, file, slurped-file, mmap and small-page stream sources and demanding identical results",
